@@ -62,7 +62,7 @@ PROPS = {
         I=['c'],
         H=['c06'],
         K=dict(quick=['c06_roundtrip_n3'], thorough=['c06_roundtrip_n3']),
-        S=dict(quick=['s_blob'], thorough=['s_blob']),
+        S=dict(quick=['s_blob_version', 's_blob_snapshot'], thorough=['s_blob_version', 's_blob_snapshot']),
         bounds='payload and snapshot of symbolic length 0..2 and symbolic bytes through the compiled Server and the SQLite glue; longer payloads (page boundaries up to 100 MiB) are outside the claim',
     ),
     'C07': dict(
